@@ -80,7 +80,7 @@ pub fn random(args: &Args) {
         let mut steps = 0;
         while now < horizon && steps < 600 {
             steps += 1;
-            let d = iface.poll_at(Instant::from_millis(now), &sockets).map(|x| (x.total_micros() + 999).div_euclid(1000)).unwrap_or(-1);
+            let d = iface.poll_at(Instant::from_millis(now), &sockets).map(crate::util::ms_ceil).unwrap_or(-1);
             pending.sort_by_key(|x| x.0);
             let next_rx = pending.first().map(|x| x.0).unwrap_or(i64::MAX);
             let mut tpoll = if d < 0 { now + 1000 } else { d.max(now) };
@@ -126,7 +126,7 @@ pub fn random(args: &Args) {
                 }
                 None => {}
             }
-            let pa = iface.poll_at(Instant::from_millis(now), &sockets).map(|x| (x.total_micros() + 999).div_euclid(1000)).unwrap_or(-1);
+            let pa = iface.poll_at(Instant::from_millis(now), &sockets).map(crate::util::ms_ceil).unwrap_or(-1);
             let outs: Vec<Value> = out.iter().map(|o| proj(o)).collect();
             t.ev(json!({"ev":"poll","now":now,"deadline":d.min(2_000_000_000),"rx":rxp,"out":outs,"pa":pa.min(2_000_000_000),"event":evname,"addr":evaddr}));
             // the server reacts to client messages
